@@ -48,6 +48,14 @@
               path still names the locked inode (and that both descriptors of try_open are on it).
               Proved sound in MvProps/C17.lean, part II.
 
+  Lock MODE SWITCHING (FileLock::downgrade_to_shared / upgrade_to_exclusive, reached through
+  Memvid::downgrade_to_shared and Memvid::ensure_writable, i.e. any mutation on a handle that is
+  parked in shared mode or came from open_read_only) is modelled for the current protocol at system
+  call granularity: flock(LOCK_UN), then the bounded retry of non-blocking attempts, then — only after
+  the lock was granted — `self.mode = …`.  A handle therefore carries its BELIEF (`mode`, what
+  FileLock::mode() answers) separately from the flock table (what it actually holds), and `lost`
+  records that a timed-out switch returned an error while the handle holds no lock at all.
+
   Open file descriptions are named (owner handle, serial): a handle never shares a description
   with another handle (every description comes from that handle's own open(2)), which the naming
   makes syntactic.  Closing a description is modelled as clearing its lock entry — nothing else
@@ -68,6 +76,8 @@ inductive Phase where
   | reader    -- a read-only `Memvid` value exists (shared lock)
   | staged    -- inside with_staging_lock: staging inode exists, rename pending
   | renamed   -- staging inode renamed over the path; reopen (+ lock adoption) pending
+  | downgrading -- inside FileLock::downgrade_to_shared: unlocked, shared lock pending (mode still Exclusive)
+  | upgrading   -- inside FileLock::upgrade_to_exclusive: unlocked, exclusive lock pending (mode still Shared)
 deriving DecidableEq, Repr
 
 /-- One entry of the kernel's flock table: description (owner, ser) holds `mode` on inode `ino`. -/
@@ -93,6 +103,11 @@ structure Handle where
   phase : Phase
   /-- uncommitted changes (a commit with nothing pending returns early, without staging) -/
   dirty : Bool
+  /-- the handle's BELIEF: `FileLock.mode` (none = no FileLock value yet) -/
+  mode : Option Mode := none
+  /-- a mode switch timed out: the call returned Err and the handle holds no flock although `mode`
+      still names the lock it had before -/
+  lost : Bool := false
 deriving DecidableEq, Repr
 
 structure State where
@@ -111,11 +126,14 @@ structure Proto where
   lockStaging : Bool
   /-- open re-checks after the flock that the path still names the locked inode -/
   validate : Bool
+  /-- lock mode switching (downgrade/upgrade) is part of the protocol; the two repair models do not
+      cover it (their handles never switch mode) -/
+  modeSwitch : Bool
 deriving DecidableEq, Repr
 
-def Proto.current : Proto := ⟨false, false⟩
-def Proto.swapOnly : Proto := ⟨true, false⟩
-def Proto.repaired : Proto := ⟨true, true⟩
+def Proto.current : Proto := ⟨false, false, true⟩
+def Proto.swapOnly : Proto := ⟨true, false, false⟩
+def Proto.repaired : Proto := ⟨true, true, false⟩
 
 /-- A2: may two locks coexist on one inode (held by different descriptions)? -/
 def compatible (m m' : Mode) : Bool := m == .sh && m' == .sh
@@ -171,6 +189,19 @@ inductive Step where
   /-- the handle goes away in whatever phase it is (Drop, early error return, or process death):
       all its descriptors are closed -/
   | drop (h : Nat)
+  /-- downgrade_to_shared: `self.file.unlock()` (Memvid::downgrade_to_shared returns early when dirty) -/
+  | dgUnlock (h : Nat)
+  /-- one `try_lock_shared` attempt of the downgrade; granted: `self.mode = Shared`, `read_only = true` -/
+  | dgLock (h : Nat)
+  /-- the downgrade's retry loop times out: Err is returned, `mode` stays Exclusive, `read_only` stays
+      false — the handle goes on as a writable handle that holds no lock -/
+  | dgFail (h : Nat)
+  /-- upgrade_to_exclusive (from ensure_writable): `self.file.unlock()` -/
+  | ugUnlock (h : Nat)
+  /-- one `try_lock_exclusive` attempt of the upgrade; granted: `self.mode = Exclusive`, `read_only = false` -/
+  | ugLock (h : Nat)
+  /-- the upgrade's retry loop times out: Err is returned, `mode` stays Shared, `read_only` stays true -/
+  | ugFail (h : Nat)
 deriving DecidableEq, Repr
 
 def step (pr : Proto) (s : State) : Step → State
@@ -199,7 +230,7 @@ def step (pr : Proto) (s : State) : Step → State
       match s.hnd h with
       | some hd =>
           if hd.phase = .opened ∧ grantable s.locks h hd.lockSer hd.lockIno .ex = true then
-            { updHnd s h (some { hd with phase := if pr.validate then .locked else .live }) with
+            { updHnd s h (some { hd with phase := if pr.validate then .locked else .live, mode := some .ex }) with
               locks := setLock s.locks h hd.lockSer hd.lockIno .ex }
           else s
       | none => s
@@ -207,7 +238,7 @@ def step (pr : Proto) (s : State) : Step → State
       match s.hnd h with
       | some hd =>
           if hd.phase = .opened ∧ grantable s.locks h hd.lockSer hd.lockIno .sh = true then
-            { updHnd s h (some { hd with phase := .reader }) with
+            { updHnd s h (some { hd with phase := .reader, mode := some .sh }) with
               locks := setLock s.locks h hd.lockSer hd.lockIno .sh }
           else s
       | none => s
@@ -275,6 +306,54 @@ def step (pr : Proto) (s : State) : Step → State
       match s.hnd h with
       | some _ => { updHnd s h none with locks := closeAll s.locks h }
       | none => s
+  | .dgUnlock h =>
+      match s.hnd h with
+      | some hd =>
+          if pr.modeSwitch = true ∧ hd.phase = .live ∧ hd.dirty = false then
+            { updHnd s h (some { hd with phase := .downgrading }) with
+              locks := unlockDesc s.locks h hd.lockSer }
+          else s
+      | none => s
+  | .dgLock h =>
+      match s.hnd h with
+      | some hd =>
+          if pr.modeSwitch = true ∧ hd.phase = .downgrading ∧
+              grantable s.locks h hd.lockSer hd.lockIno .sh = true then
+            { updHnd s h (some { hd with phase := .reader, mode := some .sh, lost := false }) with
+              locks := setLock s.locks h hd.lockSer hd.lockIno .sh }
+          else s
+      | none => s
+  | .dgFail h =>
+      match s.hnd h with
+      | some hd =>
+          if pr.modeSwitch = true ∧ hd.phase = .downgrading then
+            updHnd s h (some { hd with phase := .live, lost := true })
+          else s
+      | none => s
+  | .ugUnlock h =>
+      match s.hnd h with
+      | some hd =>
+          if pr.modeSwitch = true ∧ hd.phase = .reader then
+            { updHnd s h (some { hd with phase := .upgrading }) with
+              locks := unlockDesc s.locks h hd.lockSer }
+          else s
+      | none => s
+  | .ugLock h =>
+      match s.hnd h with
+      | some hd =>
+          if pr.modeSwitch = true ∧ hd.phase = .upgrading ∧
+              grantable s.locks h hd.lockSer hd.lockIno .ex = true then
+            { updHnd s h (some { hd with phase := .live, mode := some .ex, lost := false }) with
+              locks := setLock s.locks h hd.lockSer hd.lockIno .ex }
+          else s
+      | none => s
+  | .ugFail h =>
+      match s.hnd h with
+      | some hd =>
+          if pr.modeSwitch = true ∧ hd.phase = .upgrading then
+            updHnd s h (some { hd with phase := .reader, lost := true })
+          else s
+      | none => s
 
 /-- The scheduler: any sequence of steps of any handles. -/
 def run (pr : Proto) (s : State) (t : List Step) : State := t.foldl (step pr) s
@@ -323,8 +402,21 @@ def apiTryOpen (pr : Proto) (s : State) (h p : Nat) : State × Bool :=
   settleOpen pr (run pr s (tryOpenSteps h p)) h
 def apiCreate (pr : Proto) (s : State) (h p : Nat) : State × Bool :=
   settleOpen pr (run pr s (.mkfile p :: openSteps h p)) h
-/-- `Memvid::commit` / `vacuum` (vacuum = commit, then in-place writes through `self.file`) -/
-def apiCommit (pr : Proto) (s : State) (h : Nat) : State := run pr s (commitSteps h)
+/-- `Memvid::ensure_writable` with nothing interleaved: a read-only handle unlocks and makes its
+    attempts; when they are refused the call times out with an error.  `true` = writable afterwards. -/
+def apiEnsureWritable (pr : Proto) (s : State) (h : Nat) : State × Bool :=
+  let s' := run pr s [.ugUnlock h, .ugLock h, .ugFail h]
+  (s', opened s' h)
+/-- a mutation (`put…`): ensure_writable, then the WAL append -/
+def apiPut (pr : Proto) (s : State) (h : Nat) : State × Bool :=
+  let (s', ok) := apiEnsureWritable pr s h
+  if ok then (step pr s' (.put h), true) else (s', false)
+/-- `Memvid::downgrade_to_shared` with nothing interleaved -/
+def apiDowngrade (pr : Proto) (s : State) (h : Nat) : State := run pr s [.dgUnlock h, .dgLock h, .dgFail h]
+/-- `Memvid::commit` / `vacuum` (ensure_writable first; vacuum = commit, then in-place writes) -/
+def apiCommit (pr : Proto) (s : State) (h : Nat) : State :=
+  let (s', ok) := apiEnsureWritable pr s h
+  if ok then run pr s' (commitSteps h) else s'
 /-- `Drop for Memvid`: commit when dirty, then close everything -/
 def apiDrop (pr : Proto) (s : State) (h : Nat) : State := run pr s (commitSteps h ++ [.drop h])
 /-- `Memvid::open_read_only` (snapshot path), one attempt -/
